@@ -312,6 +312,9 @@ func CutWhere(fact CondFact) EdgeCut {
 	}
 }
 
+// EvalFact applies fact to cond, looking through negations and comparisons with a boolean constant.
+func EvalFact(cond ssa.Value, fact CondFact) (bool, bool) { return evalFact(cond, fact) }
+
 func evalFact(cond ssa.Value, fact CondFact) (bool, bool) {
 	if u, ok := cond.(*ssa.UnOp); ok && u.Op == token.NOT {
 		t, f := evalFact(u.X, fact)
@@ -428,6 +431,7 @@ func Explore(start *ssa.BasicBlock, pred int, fact CondFact, visit func(*ssa.Bas
 	type decision struct {
 		x     ssa.Value
 		isNil bool
+		y     string // "" for the nil test; otherwise the sentinel (a package-level variable) x was compared with: isNil then means "equal"
 	}
 	phiInput := map[ssa.Value]bool{}
 	for b := range relevant {
@@ -465,6 +469,54 @@ func Explore(start *ssa.BasicBlock, pred int, fact CondFact, visit func(*ssa.Bas
 		}
 		return x, (bo.Op == token.EQL) != neg, true
 	}
+	// x == Sentinel / x != Sentinel  ( err == io.ErrUnexpectedEOF ): two tests of the same value against the same package-level
+	// variable on one walk come out the same way (the variable is a sentinel: assigned once, at initialisation)
+	sentinelTest := func(c ssa.Value) (ssa.Value, string, bool, bool) { // (x, sentinel, condition true means equal, ok)
+		neg := false
+		for {
+			if u, ok := c.(*ssa.UnOp); ok && u.Op == token.NOT {
+				c, neg = u.X, !neg
+				continue
+			}
+			break
+		}
+		bo, ok := c.(*ssa.BinOp)
+		if !ok || (bo.Op != token.EQL && bo.Op != token.NEQ) {
+			return nil, "", false, false
+		}
+		sent := func(v ssa.Value) string {
+			if u, ok := v.(*ssa.UnOp); ok && u.Op == token.MUL {
+				if g, ok := u.X.(*ssa.Global); ok && g.Pkg != nil {
+					if u.Type().String() == "error" {
+						return "error:" + g.Pkg.Pkg.Path() + "." + g.Name()
+					}
+					return g.Pkg.Pkg.Path() + "." + g.Name()
+				}
+			}
+			return ""
+		}
+		switch {
+		case sent(bo.Y) != "" && sent(bo.X) == "":
+			return bo.X, sent(bo.Y), (bo.Op == token.EQL) != neg, true
+		case sent(bo.X) != "" && sent(bo.Y) == "":
+			return bo.Y, sent(bo.X), (bo.Op == token.EQL) != neg, true
+		}
+		return nil, "", false, false
+	}
+	// only values tested against the same sentinel more than once are worth remembering
+	sentinelCount := map[string]int{}
+	countKey := func(x ssa.Value, y string) string { return fmt.Sprintf("%p|%s", x, y) }
+	for _, b := range fn.Blocks {
+		for _, i := range b.Instrs {
+			if v, ok := i.(ssa.Value); ok {
+				if _, isBin := v.(*ssa.BinOp); isBin {
+					if x, y, _, ok := sentinelTest(v); ok {
+						sentinelCount[countKey(x, y)]++
+					}
+				}
+			}
+		}
+	}
 	type item struct {
 		b   *ssa.BasicBlock
 		env []entry // most recent last
@@ -476,7 +528,7 @@ func Explore(start *ssa.BasicBlock, pred int, fact CondFact, visit func(*ssa.Bas
 			fmt.Fprintf(&sb, "%d:%d,", e.b.Index, e.pred)
 		}
 		for _, d := range dec {
-			fmt.Fprintf(&sb, "|%p:%v", d.x, d.isNil)
+			fmt.Fprintf(&sb, "|%p:%v:%s", d.x, d.isNil, d.y)
 		}
 		return sb.String()
 	}
@@ -539,9 +591,30 @@ func Explore(start *ssa.BasicBlock, pred int, fact CondFact, visit func(*ssa.Bas
 				}
 				// contradiction with an earlier nil test of the same value on this walk
 				if x, trueMeansNil, ok := nilTest(cond); ok {
+					// a freshly made error is not nil ( the result variable of an inlined helper on its  return nil, fmt.Errorf(...)  edge )
+					if call, isCall := x.(*ssa.Call); isCall && trueMeansNil == (idx == 0) {
+						if g := call.Call.StaticCallee(); g != nil && g.Pkg != nil && ((g.Pkg.Pkg.Path() == "fmt" && g.Name() == "Errorf") || (g.Pkg.Pkg.Path() == "errors" && g.Name() == "New")) {
+							continue
+						}
+					}
 					contradicts := false
 					for _, d := range s.dec {
-						if d.x == x && d.isNil != (trueMeansNil == (idx == 0)) {
+						if d.y == "" && d.x == x && d.isNil != (trueMeansNil == (idx == 0)) {
+							contradicts = true
+						}
+					}
+					if contradicts {
+						continue
+					}
+				}
+				if x, y, trueMeansEq, ok := sentinelTest(cond); ok {
+					contradicts := false
+					for _, d := range s.dec {
+						if d.y == y && d.x == x && d.isNil != (trueMeansEq == (idx == 0)) {
+							contradicts = true
+						}
+						// x is nil on this walk: it is not the sentinel (a sentinel error is not nil)
+						if d.y == "" && d.x == x && d.isNil && trueMeansEq == (idx == 0) && strings.HasPrefix(y, "error:") {
 							contradicts = true
 						}
 					}
@@ -553,7 +626,7 @@ func Explore(start *ssa.BasicBlock, pred int, fact CondFact, visit func(*ssa.Bas
 			ndec := s.dec
 			if iff != nil {
 				if x, trueMeansNil, ok := nilTest(iff.Cond); ok && phiInput[x] {
-					d := decision{x, trueMeansNil == (idx == 0)}
+					d := decision{x, trueMeansNil == (idx == 0), ""}
 					dup := false
 					for _, e := range ndec {
 						if e == d {
@@ -561,6 +634,18 @@ func Explore(start *ssa.BasicBlock, pred int, fact CondFact, visit func(*ssa.Bas
 						}
 					}
 					if !dup && len(ndec) < 4 {
+						ndec = append(append([]decision(nil), ndec...), d)
+					}
+				}
+				if x, y, trueMeansEq, ok := sentinelTest(iff.Cond); ok && sentinelCount[countKey(x, y)] > 1 {
+					d := decision{x, trueMeansEq == (idx == 0), y}
+					dup := false
+					for _, e := range ndec {
+						if e == d {
+							dup = true
+						}
+					}
+					if !dup && len(ndec) < 6 {
 						ndec = append(append([]decision(nil), ndec...), d)
 					}
 				}
@@ -1459,6 +1544,29 @@ func (p *Program) CallersOf(fn *ssa.Function) []*callgraph.Edge {
 	}
 	sort.Slice(out, func(i, j int) bool { return out[i].Pos() < out[j].Pos() })
 	return out
+}
+
+// SoleCallArg: pr is a parameter of a module function that is called from exactly one place (a static call; the call graph knows no
+// other way in): the argument it receives there. nil otherwise. Lets a rule follow a value that a refactoring now computes in the
+// caller and hands in ( handleStart(in.GetBytes(TagPublicKey)) instead of handleStart(in) ).
+func (p *Program) SoleCallArg(pr *ssa.Parameter) ssa.Value {
+	fn := pr.Parent()
+	if fn == nil || !InModule(fn) {
+		return nil
+	}
+	if obj := fn.Object(); obj != nil && obj.Exported() {
+		return nil
+	}
+	es := p.CallersOf(fn)
+	if len(es) != 1 || es[0].Site == nil || es[0].Site.Common().StaticCallee() != fn {
+		return nil
+	}
+	for k, q := range fn.Params {
+		if q == pr && k < len(es[0].Site.Common().Args) {
+			return es[0].Site.Common().Args[k]
+		}
+	}
+	return nil
 }
 
 // CalleesAt resolves the possible callees of a call site: the static callee, or VTA edges for dynamic calls.
